@@ -173,6 +173,19 @@ BoxOf(s, U) ==
          LET a == BoxOf(s.a, U)  b == BoxOf(s.b, U)
          IN [box |-> UnionBox(a.box, b.box), aligned |-> a.aligned \/ b.aligned]
 
+(* the same shape with every size multiplied by 1 + delta, delta > 0 far below any lattice step but far above floating-point noise:  *)
+(* an extreme that lay exactly on a pixel edge now pokes past it, so the box gains that row / column - and only there           *)
+CentreExt(s) ==
+  CASE s.k = "circle" -> <<s.cx, Sq(s.r), 1, s.cy, Sq(s.r), 1>>
+    [] s.k = "ellipse" -> <<s.cx, Sq(s.w * s.d[1]) + Sq(s.h * s.d[2]), 2 * s.d[3], s.cy, Sq(s.w * s.d[2]) + Sq(s.h * s.d[1]), 2 * s.d[3]>>
+    [] s.k = "rectangle" -> <<s.cx, Sq(Abs(s.w * s.d[1]) + Abs(s.h * s.d[2])), 2 * s.d[3], s.cy, Sq(Abs(s.w * s.d[2]) + Abs(s.h * s.d[1])), 2 * s.d[3]>>
+GrownBox(s, U) ==
+  LET e == CentreExt(s) IN
+  <<FloorLo(e[1], e[2], e[3], U) - (IF AlignedLo(e[1], e[2], e[3], U) THEN 1 ELSE 0),
+    CeilHi(e[1], e[2], e[3], U) + (IF AlignedHi(e[1], e[2], e[3], U) THEN 1 ELSE 0),
+    FloorLo(e[4], e[5], e[6], U) - (IF AlignedLo(e[4], e[5], e[6], U) THEN 1 ELSE 0),
+    CeilHi(e[4], e[5], e[6], U) + (IF AlignedHi(e[4], e[5], e[6], U) THEN 1 ELSE 0)>>
+
 (* ---------------- masks ---------------- *)
 (* Ref: value of pixel (ix, iy) = number of the n x n regularly spaced sub-sample centres    *)
 (* that are members of the *included* shape (masks ignore the include flag), or -1 if any     *)
